@@ -1,2 +1,3 @@
 def add_obligations(pack, tier):
-    pass
+    from contracts import C16
+    C16.run(tier, 0, pid='C17', pack=pack)
